@@ -401,7 +401,7 @@ func (g *GcsEmu) handleGcsUpdateMetadataRequest(ctx context.Context, baseUrl Htt
 		verifPoint("patch.afterCheck", lockName(bucket, filename))
 
 		// Update via json decode.
-		metagen := obj.Metageneration
+		stored := *obj
 		err = json.NewDecoder(r.Body).Decode(&obj)
 		if err != nil {
 			return fmtErrorfCode(http.StatusBadRequest, "failed to parse request: %w", err)
@@ -410,8 +410,11 @@ func (g *GcsEmu) handleGcsUpdateMetadataRequest(ctx context.Context, baseUrl Htt
 			// the body was the JSON value null
 			return fmtErrorfCode(http.StatusBadRequest, "failed to parse request: not an object resource")
 		}
+		// The body may be a full resource that the client read earlier (and that may be stale by now); its
+		// output-only fields must not replace the stored ones.
+		restoreOutputOnlyFields(obj, &stored)
 
-		if err := g.store.UpdateMeta(bucket, filename, obj, metagen+1); err != nil {
+		if err := g.store.UpdateMeta(bucket, filename, obj, stored.Metageneration+1); err != nil {
 			return fmt.Errorf("failed to update attrs of %s/%s: %w", bucket, filename, err)
 		}
 
@@ -434,6 +437,20 @@ func (g *GcsEmu) handleGcsUpdateMetadataRequest(ctx context.Context, baseUrl Htt
 
 	// Respond with the updated metadata.
 	g.jsonRespond(w, obj)
+}
+
+// restoreOutputOnlyFields resets the fields of obj that a client cannot set to their values in stored.
+// (Name, bucket, size, kind and the links are recomputed by the store and need no care here.)
+func restoreOutputOnlyFields(obj *storage.Object, stored *storage.Object) {
+	obj.Generation = stored.Generation
+	obj.Md5Hash = stored.Md5Hash
+	obj.Crc32c = stored.Crc32c
+	obj.Etag = stored.Etag
+	obj.Id = stored.Id
+	obj.ComponentCount = stored.ComponentCount
+	obj.TimeCreated = stored.TimeCreated
+	obj.TimeDeleted = stored.TimeDeleted
+	obj.Updated = stored.Updated
 }
 
 func (g *GcsEmu) handleGcsCopy(ctx context.Context, baseUrl HttpBaseUrl, w http.ResponseWriter, b1 string, objectPaths string) {
